@@ -2,6 +2,7 @@ import Proofs.Lemmas.Emit
 import Proofs.Lemmas.EmitObl
 import Proofs.Lemmas.EmitOrder
 import Proofs.Lemmas.EmitQuote
+import Proofs.Lemmas.EmitFuse
 import Generated.C16CompileNodes
 /-!
 # C16 — ahead-of-time compilation preserves behaviour (compiled = interpreted)
@@ -102,6 +103,20 @@ theorem C16_nodes_rebuilt :
 panic instead of reporting an error -/
 theorem C16_no_crash_obligation : noCrashKinds tables = true := Proofs.EmitObl.no_crash_kinds
 
+/-- **A slice or map whose element type has no name is only ever written by hand.** `emitSlice` /
+`emitMap` print the element type as package + `reflect.Type.Name()`; for `[]*T`, `[][]T`, `[]any` the
+name is empty and the text `[]{…}` is not Go (the command's `format.Source` then refuses the file).
+Every struct with such a field that would take the reflective path when handed to `Emit` is one the
+handlers take apart themselves (`node.VariableList` — only `emitVariableList` writes it —,
+`node.ClassMethod`, `node.ClassProperty`); a new `[]*T` field on a reflectively emitted node: this
+`decide` fails. -/
+theorem C16_unnamed_elems_by_hand : unnamedByHand tables = true := Proofs.EmitObl.unnamed_by_hand
+
+/-- … and if such a value does reach the reflective walk, the outcome is an explicit error in every
+mode, never text that silently lacks the collection -/
+theorem C16_unnamed_is_error (tbl : Tables) (m : Mode) (ty : String) :
+    emit tbl m ty .unnamed = .error .malformed := rfl
+
 /-- field names are unique inside every described struct (so `find?` by name is the field) -/
 theorem C16_fields_unique :
     tables.structs.all (fun d => d.fields.all (fun f =>
@@ -133,6 +148,104 @@ theorem C16_order_obligation :
 theorem C16_order_pairs_found :
     Generated.C16CompileNodes.orderPairs.contains ⟨"node.ClassStatement", "Properties", "PropertiesIndex"⟩ = true := by
   decide +kernel
+
+/-! ### special handlers that substitute a node -/
+
+section fuse
+open Model.EmitFuse
+
+/-- Substitutions on record: handlers whose first written head is NOT their own type, with the reason
+the other node is taken to behave like the parser's. Whether each really does on every operand is
+decided by the operand stream of the differential run (harness/c16/operand.go), not here. -/
+def knownSubstitutions : List Subst := [
+  ("node.CallExpression", "emitCallExpression", "node.NewCallTodo"),   -- `Fun` is resolved at the first call (CallLater), as for a function declared later
+  ("node.CallLater", "emitCallLater", "node.NewCallTodo"),             -- same node kind on both sides once resolved
+  ("node.CallStaticMethod", "emitCallStaticMethod", "node.NewCallStaticMethodLater"),       -- class looked up at the first call instead of at parse time
+  ("node.CallStaticProperty", "emitCallStaticProperty", "node.NewCallStaticPropertyLater"), -- same
+  ("data.ClassValue", "emitClassValue", "")                            -- annotation instances are rebuilt by the Compiled…Value factories
+]
+
+/-- the node types with a special handler, as the model knows them -/
+def knownSpecialTypes : List String := [
+  "node.CallExpression", "node.CallMethod", "node.CallStaticMethod", "node.CallStaticProperty",
+  "node.CallStaticMethodLater", "node.CallStaticPropertyLater", "node.CallLater", "node.LambdaExpression",
+  "node.ClassStatement", "node.AbstractClassStatement", "node.FunctionStatement", "node.InterfaceStatement",
+  "node.VarFastAssign", "node.VarPostIncr", "node.VarStmtIncr", "node.VarIntLe", "data.ClassValue", "node.Array",
+  "node.Namespace", "node.NewExpression", "node.NewVariableExpression", "node.NewExpressionDynamic",
+  "node.NewSelfExpression", "node.NewStaticExpression", "node.InitClass", "node.Kv", "node.Range",
+  "node.IncludeStatement", "node.ConstStatement", "node.BinaryAssignVariable", "node.BinaryAssignVariableList"]
+
+/-- **The special-handled node types are exactly the ones on record.** A new entry of
+`specialHandlers` (`reflect.TypeOf((*node.BinaryLt)(nil)): emitBinaryLt`) — a node kind that stops
+taking the reflective path, where the generated program holds field for field what the parser built —
+breaks this `decide` by name: the handler has to be read, classified below, and its node kind has to
+be in the operand stream. -/
+theorem C16_special_handler_types :
+    tables.special.map (·.ty) = knownSpecialTypes ∧
+    Generated.C16CompileNodes.handlerOuts.map (fun o => (o.ty, o.fn)) = tables.special.map (fun h => (h.ty, h.fn)) := by
+  decide +kernel
+
+/-- **Every special handler writes its own node type and builds no node of its own, or is a
+substitution on record.** On the regenerated description of what each handler writes: the first
+constructor / literal type named in its format strings is `&node.T{` or `node.NewT…(` for the handled
+type `T`, and neither the handler nor a helper it reaches calls a `node.New…` / `data.New…` constructor
+or builds a `node.…{}` / `data.…{}` literal at generation time (`g.Emit(node.NewBinaryLe(from, ve,
+bound))`: an AST node the parser never built). A handler that starts emitting another node kind than
+the one it is registered for — an algebraic rewrite, a fused node — fails here by name. -/
+theorem C16_special_handlers_known :
+    handlersKnown knownSubstitutions Generated.C16CompileNodes.handlerOuts = true := by decide +kernel
+
+/-- **The fused `<=` node agrees with the plain one on the whole operand domain**, whatever
+`LooseCompare` answers on non-integers: `VarIntLe` takes its integer path only for an `*IntValue` and
+evaluates the embedded `BinaryLe` otherwise, and on two ints `LooseCompare` is the exact order. So the
+parser's own substitution (`NewBinaryLe` returns `VarIntLe` for `$var <= IntLiteral`), which the
+generated program repeats, is behaviour-preserving. -/
+theorem C16_fused_le_agrees (loose : LooseNonInt) (v : V) (lit : Int) :
+    evalVarIntLe loose v lit = evalLe loose v lit := Proofs.EmitFuse.fused_le_agrees loose v lit
+
+/-- the rewrite `$v < N` → `$v <= N-1` (seeded change `C16-lt-literal-emitted-as-le`) is right on the
+integers — every counting loop, which is why the repository's tests stay green … -/
+theorem C16_lt_rewrite_on_ints (loose : LooseNonInt) (i n : Int) :
+    evalLtRewritten loose (.int i) n = evalLt loose (.int i) n := Proofs.EmitFuse.rewrite_on_ints loose i n
+
+/-- … and wrong exactly here: a float strictly between `N-1` and `N` (`2.5 < 3`), -/
+theorem C16_lt_rewrite_float_iff (t n : Int) :
+    evalLtRewritten looseReal (.half t) n = evalLt looseReal (.half t) n ↔ t ≠ 2 * n - 1 :=
+  Proofs.EmitFuse.rewrite_half_iff t n
+
+/-- `true` against every literal but 1 (`true < 3` is false, `true <= 2` is true), -/
+theorem C16_lt_rewrite_true_iff (n : Int) :
+    evalLtRewritten looseReal (.bool true) n = evalLt looseReal (.bool true) n ↔ n = 1 :=
+  Proofs.EmitFuse.rewrite_true_iff n
+
+/-- `null` (and `false`) against 0 (`null < 0` is false, `null <= -1` is true). -/
+theorem C16_lt_rewrite_null_iff (n : Int) :
+    evalLtRewritten looseReal .null n = evalLt looseReal .null n ↔ n ≠ 0 :=
+  Proofs.EmitFuse.rewrite_null_iff n
+
+/-- **Negation witness**: the full statement `∀ v n, rewritten v n = ($v < n)` is false -/
+theorem C16_lt_rewrite_counterexample :
+    ¬ ∀ (v : V) (n : Int), evalLtRewritten looseReal v n = evalLt looseReal v n := by
+  intro h
+  have := h (.half 5) 3
+  revert this
+  decide
+
+/-! non-vacuity -/
+example : evalLt looseReal (.half 5) 3 = true ∧ evalLtRewritten looseReal (.half 5) 3 = false := by decide
+example : evalLt looseReal (.bool true) 3 = false ∧ evalLtRewritten looseReal (.bool true) 3 = true := by decide
+example : evalLt looseReal .null 0 = false ∧ evalLtRewritten looseReal .null 0 = true := by decide
+example : evalLt looseReal .noOrder 3 = false ∧ evalLtRewritten looseReal .noOrder 3 = false := by decide
+example : evalVarIntLe looseReal (.int 2) 2 = true ∧ evalVarIntLe looseReal (.half 5) 2 = false := by decide
+/-- the seeded handler as the translator describes it: no head of its own, three values built -/
+example : handlersKnown knownSubstitutions
+    [⟨"node.BinaryLt", "emitBinaryLt", [], ["data.NewIntValue", "node.IntLiteral", "node.NewBinaryLe"]⟩] = false := by decide
+/-- a handler registered for one type that writes another -/
+example : handlersKnown knownSubstitutions [⟨"node.BinaryLt", "emitBinaryLt", ["node.VarIntLe"], []⟩] = false := by decide
+example : handlersKnown knownSubstitutions [⟨"node.VarIntLe", "emitVarIntLe", ["node.VarIntLe"], []⟩] = true := by decide
+example : handlersKnown knownSubstitutions [⟨"node.Array", "emitArray", ["node.NewArrayWithKeys", "node.NewArray"], []⟩] = true := by decide
+
+end fuse
 
 /-! ### generic theorems -/
 
@@ -418,6 +531,13 @@ example : (∃ f, path demo "node.Secret" = .unexported ⟨"node.Secret", true, 
 example : emitTop { demo with ptrAssertUnchecked := true } (.obj "node.BinaryAdd" true (.fcons "Left" .plainPtr .fnil)) = .crash := by
   decide +kernel
 example : staticDrops demo = [("node.VarIntLe", "cache")] := by decide +kernel
+/-- a reflectively emitted struct with a `[]*T` field: the obligation is false, the emission an error -/
+def demoVarList : List StructDesc := [⟨"node.VariableList", true, [⟨"Vars", true, false, false, .unnamedElems⟩]⟩]
+example : unnamedByHand { demo with structs := demoVarList } = false := by decide +kernel
+example : unnamedByHand { demo with structs := demoVarList, aux := [⟨"node.VariableList", "(by hand inside the handlers)", ["Vars"], []⟩] } = true := by
+  decide +kernel
+example : emitTop { demo with structs := demoVarList } (.obj "node.VariableList" false (.fcons "Vars" .unnamed .fnil)) = .error .malformed := by
+  decide +kernel
 /-- the pinned-tree shape of the Node defect: with `nodeNeedsTag` an untagged Node is not rebuilt -/
 example : needsNode { demo with nodeNeedsTag := true } ⟨"node.SwitchStatement", true, [⟨"Node", true, true, false, .node⟩]⟩ = false := by
   decide
